@@ -11,7 +11,7 @@ EXPLANATION = (
     "C07.b shutdown order of the write manager and the committer's final drain (shared with C10.e). C07.c Drop for Database takes every "
     "ManuallyDrop field, hands it to a blocking drop task and waits for all of them (so the write manager inside `sync` is drained before the "
     "engine is gone). C07.d the epoch is reloaded from the stored timestamp at open. C07.e top-level encodings start from a fresh interning "
-    "session, so every stored value is self-contained. Faithfulness of the stored image for all histories is NOT decided.")
+    "session, so every stored value is self-contained. Faithfulness of the stored image for all histories is NOT decided. C07.i the committer gives up only when nothing is ready and its expected epoch only advances by one (C10.a, C10.h).")
 
 NOT_DECIDED = [
     "that the reopened engine returns from-scratch values for all histories, cache sizes and batching behaviours (needs execution)",
@@ -342,6 +342,13 @@ def run(ctx):
     ctx.run_clause("C07.a", c07a_kind)
     ctx.alias = {"C10.e": "C07.b"}
     ctx.run_clause("C07.b", C10.c10e)
+    ctx.alias = {}
+    # "everything computed before a clean shutdown is there after it": the committer applies every batch it is handed - it
+    # gives up only when nothing is ready (C10.a) and its position in creation order only ever advances by one (C10.h); a
+    # position that is reset or skipped parks every later batch until the engine is dropped.  Evaluated here as C07.i
+    ctx.alias = {"C10.a": "C07.i", "C10.h": "C07.i"}
+    ctx.run_clause("C07.i", C10.c10a)
+    ctx.run_clause("C07.i", C10.c10h)
     ctx.alias = {}
     # what reaches the store is what the batch coalesced: last operation per key / element, both write families
     from . import C09
